@@ -613,6 +613,7 @@ Proof.
   2:{ destruct (is_nil_b buf); inversion H. }
   destruct (parse_headers (firstn (length buf - 2) buf)) as [h| | |]; try (inversion H; fail).
   destruct (body_length h) as [len|]; [|inversion H].
+  destruct (len <? 0)%Z eqn:Eneg; [inversion H|].
   destruct (Z.of_N (l_body lim) <? len)%Z eqn:Elim; [inversion H|].
   destruct (Z.of_N (lenN buf) + len <? 0)%Z; [inversion H|].
   destruct (0 <? len)%Z eqn:Epos.
@@ -632,21 +633,19 @@ Proof.
       destruct r2; try (inversion H; fail); fin_limits H.
 Qed.
 
-(* a panic of the stream decoder model can only come from a negative body-length *)
-Theorem stream_panic_only_negative_length : forall lim d d',
-  stream_decode lim d = (SPanic, d') ->
-  exists headAndSep h len,
-    parse_headers (firstn (length headAndSep - 2) headAndSep) = Ok h /\ body_length h = Some len /\
-    (Z.of_N (lenN headAndSep) + len < 0)%Z.
+(* one Decode call of the stream decoder model never panics, whatever the stream and the limits: the capacity
+   len(headAndSep)+length handed to make() is never negative once a negative body-length is rejected *)
+Theorem stream_never_panics : forall lim d, fst (stream_decode lim d) <> SPanic.
 Proof.
-  intros lim d d' H. unfold stream_decode in H.
+  intros lim d. destruct (stream_decode lim d) as [r d'] eqn:H. cbn [fst]. intro Hr. subst r.
+  unfold stream_decode in H.
   destruct (read_until ru_fuel (l_buf lim) (l_headers lim) d) as [r0 d1]. destruct r0; try (inversion H; fail).
   2:{ destruct (is_nil_b buf); inversion H. }
   destruct (parse_headers_total (firstn (length buf - 2) buf)) as [E|[h E]]; rewrite E in H; [inversion H|].
   destruct (body_length h) as [len|] eqn:Eb; [|inversion H].
+  destruct (len <? 0)%Z eqn:Eneg; [inversion H|].
   destruct (Z.of_N (l_body lim) <? len)%Z eqn:Elim; [inversion H|].
-  destruct (Z.of_N (lenN buf) + len <? 0)%Z eqn:En.
-  { exists buf, h, len. split; [exact E|]. split; [exact Eb|]. apply Z.ltb_lt in En. exact En. }
+  destruct (Z.of_N (lenN buf) + len <? 0)%Z eqn:En; [lia|].
   destruct (0 <? len)%Z eqn:Epos.
   - destruct (read_exact (Z.to_N len) d1) as [[body|] d2] eqn:Er; [|inversion H].
     destruct (read_until ru_fuel (l_buf lim) (l_sig lim) d2) as [r1 d3] eqn:E1.
@@ -657,4 +656,16 @@ Proof.
     destruct r1; try (inversion H; fail); (destruct (beq buf0 NLNL); [|inversion H]);
       destruct (read_until ru_fuel (l_buf lim) (l_sig lim) d3) as [r2 d4] eqn:E2;
       destruct r2; inversion H.
+Qed.
+
+(* ... and so does no call of a whole decoding loop *)
+Theorem stream_all_never_panics : forall accepted lim d, ~ In SPanic (stream_all lim d accepted).
+Proof.
+  induction accepted as [|a acc IH]; intros lim d Hin; cbn [stream_all] in Hin; [contradiction|].
+  pose proof (stream_never_panics lim d) as Hnp.
+  destruct (stream_decode lim d) as [r d1]. cbn [fst] in Hnp.
+  destruct r; try (destruct Hin as [Hin|[]]; congruence).
+  destruct a.
+  - destruct Hin as [Hin|Hin]; [discriminate|]. exact (IH lim d1 Hin).
+  - destruct Hin as [Hin|[]]; discriminate.
 Qed.
